@@ -352,6 +352,12 @@ func (b *bbRig) caseN(j, i int) {
 						inconclusive("valid message never observed at A")
 						return
 					}
+					// the message may have overtaken the marker and still be in the middle of being cached
+					time.Sleep(300 * time.Millisecond)
+					if b.get(inst, k) {
+						res.cnt["prefix_lookups_hit_on_retry"]++
+						continue
+					}
 					b.violate(fmt.Sprintf("C18/1 admitted-miss: admitted chain (or prefix) not retrievable within capacity; prefix %d of %d path=blackbox", pi+1, l),
 						map[string]any{"instance": inst, "len": l, "prefix": pi + 1, "max_wanted": b.p.CapW, "max_discovered": b.p.CapD})
 					return
